@@ -16,11 +16,13 @@ EXPLANATION = (
     '(accept() of the control connection, the first message of the spawned backend) are multiplexed with an object that '
     'becomes ready when the client / the child goes away. R3: every path that abandons a client (continue) closes its '
     'socket, except the explicit no-request (None header) branch. R4: the children/contexts registries are mutated only in '
-    'run (after a successful creation, or on delete) and by the constructor / signal clean-up.')
+    'run (after a successful creation, or on delete) and by the constructor / signal clean-up. R5: every `mp.connection.wait` has a reason why multiprocessing.connection is imported at that point (explicit import, a Pipe end or the child\'s sentinel among the waited objects, or the work loop of a spawned child) - the accept thread of a stand-alone server waits on sockets before any Pipe or Process exists.')
 TECHNIQUE = 'tainted exception edges vs handler position on the CFG, multiplexed-wait recogniser, must-pass-through, who-may-write'
 
 
 def run(ctx):
+    from ..submodule import check_submodule_use
+    check_submodule_use(ctx, 'R5')
     P = ctx.prog
     RS = P.cls('RemoteServer')
     f = RS.methods.get('run')
